@@ -257,7 +257,7 @@ def run(sh):
         sh.handle(case, recs, raise_unattributed=True)
 
     steps = 12 if sh.quick else 30
-    sh.given(G.histories(max_steps=steps), body, sh.budget(1200, 40000), tag="hist")
+    sh.given(G.histories(max_steps=steps), body, sh.budget(800, 40000), tag="hist")
 
 
 _ = Path
